@@ -15,6 +15,7 @@ fn base(prop: &'static str) -> Cfg {
         max_len: 4,
         max_limit: 5,
         limit_values: vec![],
+        bursts: vec![],
         obs_init: 2,
         direct: false,
         via_adapter: false,
@@ -144,6 +145,16 @@ fn plans(prop: &str, tier: &str) -> Vec<Plan> {
                 }
             }
             out.push(Plan { name: "c09-large", cfgs, depth: if q { 3 } else { 4 } });
+            // long runs of updates between two polls (capacity above the run length)
+            let mut cfgs = Vec::new();
+            for kind in [StageKind::Head(Lim::Static(1)), StageKind::Tail(Lim::Static(1)), StageKind::Skip(Lim::Static(1)), StageKind::Head(Lim::Dyn(LimSrc::Obs)), StageKind::Tail(Lim::DynInit(1, LimSrc::Queue)), StageKind::Skip(Lim::Dyn(LimSrc::Queue))] {
+                for batched in fl {
+                    for init in [vec![0u8, 1], vec![1u8, 0, 1]] {
+                        cfgs.push(Cfg { stages: vec![kind], batched, init: init.iter().map(|k| k % 1).collect(), nkeys: 1, capacity: 128, alphabet: Alphabet::Reduced, bursts: vec![33, 70], policy: Policy::Manual, max_limit: 3, ..base("C09") });
+                    }
+                }
+            }
+            out.push(Plan { name: "c09-bursts", cfgs, depth: if q { 3 } else { 4 } });
         }
         "C10" => {
             let cfgs = single_stage_cfgs("C10", &[StageKind::Filter, StageKind::FilterMap], 2, 3, &[16, 1], &both, &fl);
@@ -165,6 +176,16 @@ fn plans(prop: &str, tier: &str) -> Vec<Plan> {
                 }
             }
             out.push(Plan { name: "c10-large", cfgs, depth: if q { 3 } else { 4 } });
+            // long runs of updates between two polls (capacity above the run length)
+            let mut cfgs = Vec::new();
+            for kind in [StageKind::Filter, StageKind::FilterMap] {
+                for batched in fl {
+                    for init in [vec![0u8, 1], vec![1u8, 0, 1]] {
+                        cfgs.push(Cfg { stages: vec![kind], batched, init: init.iter().map(|k| k % 2).collect(), nkeys: 2, capacity: 128, alphabet: Alphabet::Reduced, bursts: vec![33, 70], policy: Policy::Manual, max_limit: 3, ..base("C10") });
+                    }
+                }
+            }
+            out.push(Plan { name: "c10-bursts", cfgs, depth: if q { 3 } else { 4 } });
         }
         "C11" => {
             let kinds = [StageKind::Sort, StageKind::SortBy, StageKind::SortByKey];
@@ -187,6 +208,16 @@ fn plans(prop: &str, tier: &str) -> Vec<Plan> {
                 }
             }
             out.push(Plan { name: "c11-large", cfgs, depth: if q { 3 } else { 4 } });
+            // long runs of updates between two polls (capacity above the run length)
+            let mut cfgs = Vec::new();
+            for kind in [StageKind::Sort, StageKind::SortBy, StageKind::SortByKey] {
+                for batched in fl {
+                    for init in [vec![0u8, 1], vec![1u8, 0, 1]] {
+                        cfgs.push(Cfg { stages: vec![kind], batched, init: init.iter().map(|k| k % 3).collect(), nkeys: 3, capacity: 128, alphabet: Alphabet::Reduced, bursts: vec![33, 70], policy: Policy::Manual, max_limit: 3, ..base("C11") });
+                    }
+                }
+            }
+            out.push(Plan { name: "c11-bursts", cfgs, depth: if q { 3 } else { 4 } });
         }
         "C12" => {
             let menu = chain_menu();
